@@ -847,6 +847,36 @@ def check_csv(res, spec, mode, sep):
     return case
 
 
+def check_csv_flow(res, spec, el_dup, overrides):
+    """One ToCSV element over a flow of several histograms, each with its own (or no)
+    output.duplicate_last_bin: every value must be rendered as it is rendered alone by a fresh element
+    (differential; what a single conversion must look like is check_csv's business)."""
+    case = {"law": "csv-flow", "hist": spec, "element_duplicate": el_dup, "overrides": list(overrides)}
+    cause = {"law": "csv-flow", "dim": _dim(spec)}
+
+    def value(ov):
+        h = build_hist(spec)
+        return (h, {"k": 1}) if ov is None else (h, {"output": {"duplicate_last_bin": ov}})
+
+    problems = []
+    try:
+        together = [v[0] for v in lena.output.ToCSV(duplicate_last_bin=el_dup).run(
+            iter([value(ov) for ov in overrides]))]
+        alone = []
+        for ov in overrides:
+            alone.extend(v[0] for v in lena.output.ToCSV(duplicate_last_bin=el_dup).run(iter([value(ov)])))
+        if together != alone:
+            idx = [i for i, (a, b) in enumerate(zip(together, alone)) if a != b]
+            cause["effective_setting_of_wrong_value"] = \
+                "own" if idx and overrides[idx[0]] is not None else "element-default"
+            problems.append(("depends-on-earlier-values", together, alone))
+    except Exception as e:
+        problems.append(("exception", _exc(e), "csv texts"))
+    res.case(nontrivial=len(set(overrides)) > 1, outcome=None)
+    _report(res, case, problems, cause)
+    return case
+
+
 def check_graph_csv(res, gspec, sep):
     case = {"law": "graph-csv", "graph": gspec, "separator": sep}
     cause = {"law": "graph-csv", "dim": gspec["dim"], "columns": len(gspec["names"])}
@@ -1132,6 +1162,11 @@ def run_shard(p, tier):
                 for sep in (",", ";"):
                     case = check_csv(res, with_n_out(spec, 0), mode, sep)
             res.sample(case, 2)
+            if len(M.ref_csv_rows(spec["edges"], spec["bins"], True)) <= 6:
+                for el_dup in (True, False):
+                    for n in (2, 3):
+                        for ovs in itertools.product((None, True, False), repeat=n):
+                            check_csv_flow(res, with_n_out(spec, 0), el_dup, ovs)
     elif law == "gcsv":
         for gs in _mine(graph_specs(tier, scales=[None, 2]), p):
             for sep in (",", " "):
@@ -1169,6 +1204,8 @@ def replay(case):
         check_csv(res, case["hist"], case["mode"], case["separator"])
     elif law == "graph-csv":
         check_graph_csv(res, case["graph"], case["separator"])
+    elif law == "csv-flow":
+        check_csv_flow(res, case["hist"], case["element_duplicate"], tuple(case["overrides"]))
     else:
         raise KeyError(law)
     return result_violations(res)
